@@ -114,7 +114,9 @@ def check(rep, F, rule='POSITION'):
                                 okt = same(N.lin(r[3][1]), N.add(k, {1: 1}, -1))
                             elif _is(r, 'adt') and r[2] == 'RangeTo':
                                 okt = same(N.lin(r[3][0]), N.add(k, {1: 1}, -1))
-                    if not okp:
+                    if not (isinstance(hi, dict) and isinstance(lo, dict)):
+                        put(cell, 'undecided', 'digit pair not read by index from the digit vector')
+                    elif not okp:
                         put(cell, 'violation', 'with k = scale - new_scale the pair must be (D[k], D[k-1]); found indices (%s, %s)' % (N.show_lin(hi) if isinstance(hi, dict) else hi, N.show_lin(lo) if isinstance(lo, dict) else lo))
                     elif not okt:
                         put(cell, 'violation', 'the tail flag must be all_zero(D[0 .. k-1]); found %s' % TB.show(tail)[:90])
